@@ -652,7 +652,7 @@ GLOBAL_SETTERS = ("os.chdir", "logging.captureWarnings", "logging.disable", "np.
 
 @rule(
     "RESTORE-PAIR",
-    ["C15"],
+    ["C15", "C12"],
     "a write to process-global state (root logger attributes, sys.stdout/stderr, os.environ, cwd) "
     "whose old value was saved must be undone on every path from the write to every exit, "
     "including exceptional exits (finally / context manager accepted)",
@@ -734,6 +734,15 @@ def restore_pair(repo, res):
         # The command-line entry point (ffcx.main) configures its own process and is exempt.
         if mod.name == "ffcx.main":
             continue
+        # at module level (import time) such a call can never be undone: importing a backend changes the process for everything that runs afterwards -
+        # UFL's signatures, for one, print NumPy arrays
+        for n in walk_no_nested(mod.tree):
+            if isinstance(n, ast.Call) and call_name(n) in GLOBAL_SETTERS:
+                k = f"{mod.name}:<module>:{call_name(n).split('.')[-1]}"
+                res.ob(k)
+                res.fail(k, f"{call_name(n)}(...) is called when {mod.name} is imported: the process-global setting stays changed for every later compilation of the process "
+                         "(and for the caller's own code); what is generated afterwards - names derived from printed arrays included - depends on whether this module was "
+                         "imported before", mod.line(n), props=("C12", "C15"))
         for f in mod.funcs.values():
             for setter in GLOBAL_SETTERS:
                 chd = [c for c in calls_in(f.node) if call_name(c) == setter]
